@@ -8,6 +8,7 @@ TRUST = ("Trusted base: CrossHair 0.0.110's symbolic model of CPython str/int/li
          "per query in the evidence file, nothing is claimed outside them.")
 TECH = "bounded symbolic execution of the real Python functions (CrossHair proxies + z3), path tree exhausted per query; counterexamples replayed natively"
 CLAIMED = {
+    "C15": ("6 C15", "rowio.ods_rows over real ElementTree trees of encoder-made documents with symbolic repeat counts (S-INT and as text through the real int()), symbolic requested sheet (incl. tables that are not sheets), symbolic cell texts, and archive / parser faults of every documented exception type (S-ZIP / S-XML); each optional ODF encoding (column runs, row runs, white space elements, spans, paragraphs, empty paragraphs) and broken archives exercised natively on real files. One genuine defect (row runs) is a recorded known finding."),
     "C14": ("6 C14", "Real Writer + real FixedRowWriter on a recording stream: the characters written are exactly the padded accepted rows with the declared line delimiter (one fully symbolic row per query in the quick tier, others concrete accepted / rejected rows; header 0..1; a target that cannot encode a character; a path target must be closed even when the end-of-data check fails); delimited: rows handed to the csv writer = accepted rows (S-CSVW); read-back: every text in written form is accepted row by row by real fixed_rows + Reader."),
     "C18": ("6 C18", "applications.main/process/CutplaceApp.validate with option parsing, CID loader and Reader stubbed: the exit code decided for every list of 0-3 data files with symbolic per-file outcome (accepted / data error / check error at close / unreadable) and CID outcome; every file up to the first unreadable one is judged in order; the --until mapping decided for every integer."),
     "C19": ("6 C19", "Integer column capacity decided for all lower <= upper (one and two range items, unbounded integers up to the dialect's maximum precision) for the Transact-SQL, DB2 and Oracle dialects through the real IntegerFieldFormat.sql_ansi_type + dialect.sql_type + SqlFactory; NOT NULL / order / quoting decided for all empty-flag combinations of 1-4 fields in four dialects. Keyword sets, decimal digits and text lengths are concrete and checked natively. One genuine defect is a recorded known finding."),
